@@ -31,17 +31,18 @@ EXPLANATION = (
     'raw_names or the element is `&&`. R1b: NinjaRule command/args reach the file only through _quoter, whose decision table '
     'equals the meaning of Quoting.{none,notNinja,notShell,both}; command lines use the shell quoter, rspfile_content the '
     'rsp quoter. R1c: every Quoting.none construction is a `$`-variable or a compiler method applied to `$` placeholders. '
-    'R2: the ninja escape classes, the fast-path guard and the replacement agree with {$, space, (:)}; newline raises. '
+    'R2: the ninja escape classes (one-character regex class + `$\\g<0>` template, or a constant str.translate table mapping c to `$`+c), the fast-path guard and the replacement agree with {$, space, (:)}; newline raises. '
     'R3: rsp-style -> quote function maps of rule and element agree, plain mode uses the _quoter default, raw_names is the '
     'single table on both sides, strToCommandArg table, gcc_rsp_quote doubles backslashes, quote_func binding, POSIX '
     'quote_arg is shlex.quote. R4: meson_exe/mtest pass argv lists to Popen/create_subprocess_exec without a shell and '
-    'without joining; argv order; test args stored unchanged. R5: only whitelisted rewrites in eval_custom_target_command '
+    'without joining; argv order; test args stored unchanged, and the loop that lowers them has no early exit (break/return: same count). R5: only whitelisted rewrites in eval_custom_target_command '
     'and escape_extra_args; every in-place @TEMPLATE@ substitution runs on every path on which the element may contain that template. '
     'R4a also: meson_exe.run passes on the argv argparse left over, minus at most one leading `--`. R5c: in generate_genlist_for_target no string '
     'rewrite runs on the result of the @EXTRA_ARGS@ splice. R7: the digest naming the exe-wrapper response file is taken over the text written '
     'into it. R8: Interpreter._add_arguments does not store one list object under several languages while stored lists are modified in place. '
     'Functions are analysed in a normal form (private helpers inlined, constant-tuple loops unrolled, conditional-expression assignments and '
-    'search loops desugared, enum-keyed constant tables folded per member); anchors are found by role. '
+    'search loops desugared, `match` over plain type/value tests of a name read as the if/elif chain, enum-keyed constant tables folded per member); anchors are found by role. '
+    'R5d: the @OUTPUTn@ substitution of replace_outputs re-searches the argument until no placeholder is left and replaces the text it matched (a single search + `if` leaves a second, different placeholder). '
     'R4e: a return that runs the argv through `meson --internal exe` with options puts the `--` separator right before it. R9: the suffix guard of '
     'both_libraries covers every per-library-kind `<lang>_*_args` key that is read. R10: CLikeCompilerArgs.to_native deletes collected positions from the back. '
     'R6: a newline in an argument forces the pickled wrapper, which receives the unmodified '
@@ -1774,7 +1775,7 @@ def r4b(ctx: RuleCtx) -> None:
 def r4c(ctx: RuleCtx) -> None:
     mod = ctx.repo.module(BACKENDS)
     # the method of Backend that constructs TestSerialisation records (found by role)
-    builders = [q for q, f in mod.methods('Backend').items() if any(isinstance(c, ast.Call) and call_name(c) == 'TestSerialisation' for c in walk_no_nested(f))]
+    builders = [q for q, f in mod.methods('Backend').items() if any(isinstance(c, ast.Call) and call_name(c) == 'TestSerialisation' for c in ast.walk(f))]      # also in a local function of the method
     if len(builders) != 1:
         raise Undecided(f'Backend: TestSerialisation is constructed in {builders}')
     qn = f'Backend.{builders[0]}'
@@ -1784,7 +1785,9 @@ def r4c(ctx: RuleCtx) -> None:
     fields = [st.target.id for st in cls.body if isinstance(st, ast.AnnAssign) and isinstance(st.target, ast.Name)]
     cons = [c for c in ast.walk(fn) if isinstance(c, ast.Call) and call_name(c) == 'TestSerialisation']
     ctx.floor(f'{qn}: TestSerialisation constructions', len(cons), 1)
+    fn0, fl0 = fn, fl
     for c in cons:
+        fn, fl = fn0, fl0
         if any(isinstance(a, ast.Starred) for a in c.args):
             raise Undecided(f'{qn}: starred arguments in TestSerialisation(...)')
         bound = {f: a for f, a in zip(fields, c.args)}
@@ -1793,6 +1796,11 @@ def r4c(ctx: RuleCtx) -> None:
         if not isinstance(av, ast.Name):
             raise Undecided(f'{qn}: cmd_args field receives {short(av)}')
         lst = av.id
+        # the scope that builds the record: the method, or the innermost local function of it that contains the construction (per-test body as a closure)
+        scopes = [d for d in ast.walk(fn) if isinstance(d, (ast.FunctionDef, ast.AsyncFunctionDef)) and d is not fn and any(x is c for x in ast.walk(d))]
+        if scopes:
+            fn = min(scopes, key=lambda d: sum(1 for _ in ast.walk(d)))
+            fl = OFlow(fn)
         ctx.require(norm(bound.get('fname')) != lst, f'{qn}: fields fname={short(bound.get("fname"))}, cmd_args={lst}', mod, qn,
                     f'TestSerialisation(fname={norm(bound.get("fname"))}, cmd_args={lst})', 'fname and cmd_args receive the same list', c)
         # the loop(s) that fill the list
